@@ -36,14 +36,17 @@ theorem findKey_none_of_not_mem {x : Nat} {q : List MapOp} (h : x ∉ keysOfQ q)
   induction q with
   | nil => rfl
   | cons e rest ih =>
-    simp only [keysOfQ, List.filterMap_cons] at h
     simp only [findKey]
     cases hk : e.key? with
-    | none => simp [hk] at h ⊢; exact ih h
+    | none =>
+      have h' : x ∉ keysOfQ rest := by
+        simpa [keysOfQ, List.filterMap_cons, hk] using h
+      simp; exact ih h'
     | some k =>
-      simp [hk] at h ⊢
-      have : ¬ k = x := fun hh => h.1 hh.symm
-      simp [this]; exact ih h.2
+      have h' : ¬ x = k ∧ x ∉ keysOfQ rest := by
+        simpa [keysOfQ, List.filterMap_cons, hk, not_or] using h
+      have : ¬ k = x := fun hh => h'.1 hh.symm
+      simp [this]; exact ih h'.2
 
 /-- On a queue without `clear` and with distinct keys the fold is: the entry's value for a queued key, the base
 map's value otherwise. -/
@@ -98,5 +101,261 @@ structure WFQ (q : List MapOp) : Prop where
   keys : (keysOfQ q).Nodup
 
 theorem wfq_nil : WFQ [] := ⟨fun e h => by simp at h, by simp [keysOfQ]⟩
+
+theorem keysOfQ_cons_some {e : MapOp} {k : Nat} (rest : List MapOp) (h : e.key? = some k) :
+    keysOfQ (e :: rest) = k :: keysOfQ rest := by simp [keysOfQ, List.filterMap_cons, h]
+
+theorem keysOfQ_cons_none {e : MapOp} (rest : List MapOp) (h : e.key? = none) :
+    keysOfQ (e :: rest) = keysOfQ rest := by simp [keysOfQ, List.filterMap_cons, h]
+
+theorem applyOp_keyed (m : KMap) (op : MapOp) (k : Nat) (hk : op.key? = some k) (x : Nat) :
+    applyOp m op x = if x = k then entryVal op else m x := by
+  cases op with
+  | clear => simp [MapOp.key?] at hk
+  | upd k' v => simp [MapOp.key?] at hk; subst hk; simp [applyOp, entryVal]
+  | rem k' => simp [MapOp.key?] at hk; subst hk; simp [applyOp, entryVal]
+
+theorem mqReplace_spec (op : MapOp) (k : Nat) (hk : op.key? = some k) : ∀ (q q' : List MapOp),
+    mqReplace op k q = some q' →
+    (NoClear q → NoClear q') ∧ keysOfQ q' = keysOfQ q ∧ q'.length = q.length ∧
+    (∀ x, findKey x q' = if x = k then some op else findKey x q) ∧ k ∈ keysOfQ q := by
+  intro q
+  induction q with
+  | nil => intro q' h; simp [mqReplace] at h
+  | cons e rest ih =>
+    intro q' h
+    unfold mqReplace at h
+    by_cases he : e.key? = some k
+    · rw [if_pos he] at h
+      have : q' = op :: rest := (Option.some.inj h).symm
+      subst this
+      refine ⟨?_, ?_, rfl, ?_, ?_⟩
+      · intro hnc e' he'
+        rcases List.mem_cons.mp he' with rfl | hm
+        · intro hc; rw [hc] at hk; simp [MapOp.key?] at hk
+        · exact hnc e' (List.mem_cons_of_mem _ hm)
+      · simp [keysOfQ, List.filterMap_cons, he, hk]
+      · intro x
+        simp only [findKey, hk, he]
+        by_cases hx : x = k
+        · subst hx; simp
+        · have : ¬ (some k = some x) := fun hh => hx (Option.some.inj hh).symm
+          simp [hx, this]
+      · simp [keysOfQ, List.filterMap_cons, he]
+    · rw [if_neg he] at h
+      cases hr : mqReplace op k rest with
+      | none => simp [hr] at h
+      | some r =>
+        simp only [hr] at h
+        have : q' = e :: r := (Option.some.inj h).symm
+        subst this
+        obtain ⟨h1, h2, h3, h4, h5⟩ := ih r hr
+        refine ⟨?_, ?_, by simp [h3], ?_, ?_⟩
+        · intro hnc e' he'
+          rcases List.mem_cons.mp he' with rfl | hm
+          · exact hnc _ List.mem_cons_self
+          · exact h1 (fun e'' he'' => hnc e'' (List.mem_cons_of_mem _ he'')) e' hm
+        · simp only [keysOfQ, List.filterMap_cons] at h2 ⊢
+          rw [h2]
+        · intro x
+          simp only [findKey]
+          by_cases hx : x = k
+          · subst hx
+            have : ¬ e.key? = some x := he
+            simp [this, h4]
+          · simp only [hx, if_false]
+            rw [h4 x]; simp [hx]
+        · cases hke : e.key? with
+          | none => rw [keysOfQ_cons_none rest hke]; exact h5
+          | some k' => rw [keysOfQ_cons_some rest hke]; exact List.mem_cons_of_mem _ h5
+
+theorem mqReplace_none (op : MapOp) (k : Nat) : ∀ (q : List MapOp), mqReplace op k q = none → k ∉ keysOfQ q := by
+  intro q
+  induction q with
+  | nil => intro _; simp [keysOfQ]
+  | cons e rest ih =>
+    intro h
+    unfold mqReplace at h
+    by_cases he : e.key? = some k
+    · rw [if_pos he] at h; simp at h
+    · rw [if_neg he] at h
+      cases hr : mqReplace op k rest with
+      | some r => simp [hr] at h
+      | none =>
+        have := ih hr
+        cases hke : e.key? with
+        | none => rw [keysOfQ_cons_none rest hke]; exact this
+        | some k' =>
+          rw [keysOfQ_cons_some rest hke]
+          intro hm
+          rcases List.mem_cons.mp hm with h1 | h1
+          · apply he; rw [hke, h1]
+          · exact this h1
+
+/-- Pushing into the coalescing queue is indistinguishable, for whoever applies the operations in order, from
+appending to an unbounded FIFO. -/
+theorem applyAll_mqPush_noclear (m : KMap) (q : List MapOp) (op : MapOp) (k : Nat) (hk : op.key? = some k)
+    (hnc : NoClear q) (hnd : (keysOfQ q).Nodup) :
+    applyAll m (mqPush q op) = applyAll m (q ++ [op]) := by
+  unfold mqPush
+  rw [hk]
+  simp only []
+  cases hr : mqReplace op k q with
+  | none => rfl
+  | some q' =>
+    simp only []
+    obtain ⟨h1, h2, h3, h4, h5⟩ := mqReplace_spec op k hk q q' hr
+    funext x
+    rw [applyAll_char q' m (h1 hnc) (by rw [h2]; exact hnd) x, applyAll_append]
+    show _ = applyOp (applyAll m q) op x
+    rw [applyOp_keyed _ op k hk, h4 x, applyAll_char q m hnc hnd x]
+    by_cases hx : x = k <;> simp [hx]
+
+theorem applyAll_mqPush (m : KMap) (q : List MapOp) (op : MapOp) (h : WFQ q) :
+    applyAll m (mqPush q op) = applyAll m (q ++ [op]) := by
+  cases hk : op.key? with
+  | none =>
+    have : op = .clear := by cases op <;> simp [MapOp.key?] at hk ⊢
+    subst this
+    funext x
+    rw [applyAll_append]
+    simp [mqPush, MapOp.key?, applyAll, applyOp]
+  | some k =>
+    cases q with
+    | nil => simp [mqPush, hk, mqReplace]
+    | cons e rest =>
+      cases e with
+      | clear =>
+        -- the head `clear` resets the base; the rest is clear-free
+        have hnc : NoClear rest := h.tail
+        have hnd : (keysOfQ rest).Nodup := by simpa [keysOfQ, List.filterMap_cons, MapOp.key?] using h.keys
+        have e1 : mqPush (.clear :: rest) op = .clear :: mqPush rest op := by
+          have hne : ¬ (MapOp.clear.key? = some k) := by simp [MapOp.key?]
+          simp only [mqPush, hk]
+          rw [mqReplace, if_neg hne]
+          cases mqReplace op k rest <;> rfl
+        rw [e1]
+        show applyAll (applyOp m .clear) (mqPush rest op) = applyAll (applyOp m .clear) (rest ++ [op])
+        exact applyAll_mqPush_noclear _ rest op k hk hnc hnd
+      | upd k' v =>
+        apply applyAll_mqPush_noclear m _ op k hk _ h.keys
+        intro e' he'
+        rcases List.mem_cons.mp he' with rfl | hm
+        · simp
+        · exact h.tail e' hm
+      | rem k' =>
+        apply applyAll_mqPush_noclear m _ op k hk _ h.keys
+        intro e' he'
+        rcases List.mem_cons.mp he' with rfl | hm
+        · simp
+        · exact h.tail e' hm
+
+theorem wfq_mqPush (q : List MapOp) (op : MapOp) (h : WFQ q) : WFQ (mqPush q op) := by
+  cases hk : op.key? with
+  | none =>
+    simp only [mqPush, hk]
+    exact ⟨fun e he => by simp at he, by
+      have : keysOfQ [MapOp.clear] = [] := by simp [keysOfQ, MapOp.key?]
+      rw [this]; exact List.nodup_nil⟩
+  | some k =>
+    simp only [mqPush, hk]
+    have hop : op ≠ .clear := by intro hc; rw [hc] at hk; simp [MapOp.key?] at hk
+    cases hr : mqReplace op k q with
+    | none =>
+      simp only []
+      have hn := mqReplace_none op k q hr
+      constructor
+      · intro e he
+        cases q with
+        | nil => simp at he
+        | cons a rest =>
+          simp only [List.cons_append, List.tail_cons] at he
+          rcases List.mem_append.mp he with h1 | h1
+          · exact h.tail e h1
+          · simp at h1; subst h1; exact hop
+      · simp only [keysOfQ, List.filterMap_append, List.filterMap_cons, hk, List.filterMap_nil]
+        rw [List.nodup_append]
+        refine ⟨h.keys, by simp, ?_⟩
+        intro a ha b hb
+        simp at hb; subst hb
+        intro hab; subst hab; exact hn ha
+    | some q' =>
+      simp only []
+      obtain ⟨h1, h2, h3, h4, h5⟩ := mqReplace_spec op k hk q q' hr
+      constructor
+      · -- the tail of q' is clear-free: q' is q with one keyed entry replaced by a keyed entry
+        cases q with
+        | nil => simp [mqReplace] at hr
+        | cons a rest =>
+          unfold mqReplace at hr
+          by_cases ha : a.key? = some k
+          · rw [if_pos ha] at hr
+            have : q' = op :: rest := (Option.some.inj hr).symm
+            subst this; exact h.tail
+          · rw [if_neg ha] at hr
+            cases hr2 : mqReplace op k rest with
+            | none => simp [hr2] at hr
+            | some r =>
+              simp only [hr2] at hr
+              have : q' = a :: r := (Option.some.inj hr).symm
+              subst this
+              exact (mqReplace_spec op k hk rest r hr2).1 h.tail
+      · rw [h2]; exact h.keys
+
+/-- **Runtime coalescing preserves the fold (C02)**: for every interleaving of pushes and pops, applying what has
+been popped and then what is still queued gives the same map as applying everything that was pushed. -/
+structure MQSys where
+  queue : List MapOp := []
+  pushed : List MapOp := []
+  popped : List MapOp := []
+
+inductive MQOp | push (op : MapOp) | pop
+
+def mqStep (s : MQSys) : MQOp → MQSys
+  | .push op => { s with queue := mqPush s.queue op, pushed := s.pushed ++ [op] }
+  | .pop => match s.queue with
+    | [] => s
+    | e :: rest => { s with queue := rest, popped := s.popped ++ [e] }
+
+def mqRun (s : MQSys) (ops : List MQOp) : MQSys := ops.foldl mqStep s
+
+theorem wfq_tail {e : MapOp} {rest : List MapOp} (h : WFQ (e :: rest)) : WFQ rest := by
+  constructor
+  · intro x hx; exact h.tail x (List.mem_of_mem_tail hx)
+  · have := h.keys
+    simp only [keysOfQ, List.filterMap_cons] at this
+    cases hk : e.key? with
+    | none => simpa [hk, keysOfQ] using this
+    | some k => simp [hk] at this; exact this.2
+
+theorem mq_refines (m : KMap) : ∀ (ops : List MQOp) (s : MQSys), WFQ s.queue →
+    applyAll m (s.popped ++ s.queue) = applyAll m s.pushed →
+    WFQ (mqRun s ops).queue ∧
+    applyAll m ((mqRun s ops).popped ++ (mqRun s ops).queue) = applyAll m (mqRun s ops).pushed := by
+  intro ops
+  induction ops with
+  | nil => intro s h1 h2; exact ⟨h1, h2⟩
+  | cons op rest ih =>
+    intro s h1 h2
+    simp only [mqRun, List.foldl]
+    cases op with
+    | push o =>
+      apply ih
+      · exact wfq_mqPush _ _ h1
+      · simp only [mqStep]
+        rw [applyAll_append, applyAll_mqPush _ _ _ h1, ← applyAll_append, ← List.append_assoc, applyAll_append, h2,
+          applyAll_append]
+    | pop =>
+      cases hq : s.queue with
+      | nil =>
+        apply ih
+        · simp only [mqStep, hq]; rw [hq] at h1; exact h1
+        · simp only [mqStep, hq]; rw [hq] at h2; exact h2
+      | cons e r =>
+        apply ih
+        · simp only [mqStep, hq]; rw [hq] at h1; exact wfq_tail h1
+        · simp only [mqStep, hq]
+          rw [hq] at h2
+          simpa [List.append_assoc] using h2
 
 end SwimVerif.WT
